@@ -190,6 +190,151 @@ class PCTPolicy:
         return self._best(s, exclude=tid if not s.runnable(tid) else None)
 
 
+class BarrierPolicy:
+    """race to the lock: every thread runs, one after the other, up to its
+    first attempt to take a package lock and is parked right in front of it;
+    when all are there (or finished, or blocked) the inner policy takes over.
+    For a template that is compiled on first use this puts every thread past
+    the 'not compiled yet' test before anybody compiles."""
+
+    def __init__(self, inner):
+        self.inner = inner
+        self.waiting = set()
+        self.released = False
+
+    def _other(self, s):
+        for t in range(len(s.th)):
+            if t not in self.waiting and s.runnable(t):
+                return t
+        return None
+
+    def start(self, s):
+        return 0
+
+    def at_point(self, s, tid):
+        if self.released:
+            return self.inner.at_point(s, tid)
+        if (s.last_label or '').startswith('acquire '):
+            self.waiting.add(tid)
+            t = self._other(s)
+            if t is not None:
+                return t
+            return self._release(s, tid)
+        return tid
+
+    def _release(self, s, tid):
+        self.released = True
+        nxt = self.inner.start(s)
+        if nxt is None or not s.runnable(nxt):
+            nxt = s.default_pick(tid)
+        return nxt
+
+    def cannot_continue(self, s, tid):
+        if not self.released:
+            self.waiting.add(tid)
+            t = self._other(s)
+            if t is not None:
+                return t
+            nxt = self._release(s, None)
+            if nxt is not None and nxt != tid and s.runnable(nxt):
+                return nxt
+        return self.inner.cannot_continue(s, tid)
+
+    @property
+    def nswitch(self):
+        return getattr(self.inner, 'nswitch', 0)
+
+
+class HandoverPolicy:
+    """park one thread right after a chosen write: thread y runs until it has
+    executed the source line `target` (a line that stores into an attribute
+    or a container) for the first time and is parked before its next line;
+    then the others run to completion, then y.  With `race` set the run
+    starts with a race to the lock (BarrierPolicy), after which thread x runs
+    until it has released the lock, and only then y runs to the target: y
+    then meets the chosen line in a second pass over what x has already
+    published (a re-compilation, say), and x goes on - or starts its next
+    call - while y is parked in the middle of it."""
+
+    wants_where = True
+
+    def __init__(self, x, y, target, race):
+        self.x, self.y, self.target = x, y, target
+        self.phase = 'race' if race else 'y'
+        self.barrier = BarrierPolicy(self) if race else None
+        self.hit = False
+        self.prev_where = None
+
+    def start(self, s):
+        if self.phase == 'race':
+            return 0
+        return self.y
+
+    def _after(self, s, cur):
+        # y parked (or done): the others to completion, lowest first, y last
+        for t in range(len(s.th)):
+            if t != self.y and s.runnable(t):
+                return t
+        return s.default_pick(cur)
+
+    def at_point(self, s, tid):
+        if self.phase == 'race':
+            b = self.barrier
+            if (s.last_label or '').startswith('acquire '):
+                b.waiting.add(tid)
+                t = b._other(s)
+                if t is not None:
+                    return t
+                self.phase = 'x'
+                return self.x if s.runnable(self.x) else tid
+            return tid
+        if self.phase == 'x':
+            if tid != self.x:
+                return self.x if s.runnable(self.x) else tid
+            if (s.last_label or '').startswith('release '):
+                self.phase = 'y'
+                self.prev_where = None
+                return self.y if s.runnable(self.y) else tid
+            return tid
+        if self.phase == 'y':
+            if tid != self.y:
+                return self.y if s.runnable(self.y) else tid
+            if self.prev_where == self.target:
+                self.phase = 'rest'
+                self.hit = True
+                return self._after(s, tid)
+            self.prev_where = s.last_where
+            return tid
+        # rest: run whoever runs to completion, y last
+        if tid == self.y:
+            t = self._after(s, tid)
+            return t if t is not None else tid
+        return tid
+
+    def cannot_continue(self, s, tid):
+        if self.phase == 'race':
+            b = self.barrier
+            b.waiting.add(tid)
+            t = b._other(s)
+            if t is not None:
+                return t
+            self.phase = 'x'
+            if s.runnable(self.x):
+                return self.x
+        if self.phase == 'x' and tid == self.x:
+            self.phase = 'y'
+            self.prev_where = None
+        if self.phase == 'y':
+            if tid == self.y:
+                self.phase = 'rest'
+            elif s.runnable(self.y):
+                return self.y
+        if self.phase == 'x' and s.runnable(self.x):
+            return self.x
+        t = self._after(s, None)
+        return t
+
+
 class WritePolicy:
     """write-biased: after the running thread has written an attribute of a
     shared package object, switch with probability p and let the other
@@ -259,6 +404,9 @@ class Sim:
         self.pending_store = {}
         self.code_ok = {}
         self.harness_error = None
+        self.last_label = None
+        self.last_where = None
+        self.want_where = getattr(policy, 'wants_where', False)
 
     # -- state ----------------------------------------------------------
     def runnable(self, t):
@@ -310,6 +458,10 @@ class Sim:
     def point(self, tid, frame, label=None):
         if self.abort:
             raise SimAbort(self.abort)
+        self.last_label = label if frame is None else None
+        if self.want_where:
+            self.last_where = None if frame is None else '%s:%d' % (
+                os.path.basename(frame.f_code.co_filename), frame.f_lineno)
         self.steps += 1
         if self.steps > self.cap:
             self.abort = 'no_progress'
@@ -352,6 +504,9 @@ class Sim:
         if lk._reentrant and lk.owner == tid:
             lk.count += 1
             return True
+        # about to take a lock: a pre-emption point like any other (the
+        # thread can be parked right in front of the lock)
+        self.point(tid, None, 'acquire %s' % lk.name)
         while lk.owner is not None:
             if not blocking:
                 return False
@@ -377,6 +532,10 @@ class Sim:
             return
         lk.owner = None
         lk.count = 0
+        # just released: a pre-emption point (what the lock protected is
+        # published, the thread has not gone on yet)
+        if not self.abort:
+            self.point(tid, None, 'release %s' % lk.name)
 
     # -- thread life cycle -------------------------------------------------
     def _target(self, tid):
@@ -467,7 +626,7 @@ def store_line(code, line):
                 if ln:
                     cur = ln
                 if ins.opname in ('STORE_ATTR', 'STORE_SUBSCR',
-                                  'DELETE_ATTR'):
+                                  'DELETE_ATTR', 'DELETE_SUBSCR'):
                     lines.add(cur)
         _STORE_LINES[code] = lines
     return line in lines
@@ -475,7 +634,12 @@ def store_line(code, line):
 
 # ------------------------------------------------------------ solo profile
 
-def solo_profile(fn, opcode=False):
+class Profile(list):
+    """pre-emption points of a solo run; .writes: the storing lines"""
+    writes = ()
+
+
+def solo_profile(fn, opcode=False, writes=None):
     """run fn alone in this thread under the same tracer -> (outcome, list
     of 'file:line' pre-emption points in order)"""
     points = []
@@ -492,8 +656,12 @@ def solo_profile(fn, opcode=False):
 
     def local(frame, event, arg):
         if event == ('opcode' if opcode else 'line'):
-            points.append('%s:%d' % (os.path.basename(
-                frame.f_code.co_filename), frame.f_lineno))
+            w = '%s:%d' % (os.path.basename(
+                frame.f_code.co_filename), frame.f_lineno)
+            points.append(w)
+            if writes is not None and w not in writes and store_line(
+                    frame.f_code, frame.f_lineno):
+                writes.add(w)
         return local
 
     def glob(frame, event, arg):
